@@ -127,7 +127,7 @@ func checkString(c StringCase) *vfrun.Failure {
 func TestString(t *testing.T) {
 	vfrun.Run(t, vfrun.Prop[StringCase]{Property: "C08", Name: "TestString",
 		Gen:   func(t *rapid.T) StringCase { return StringCase{B: genBytes(t)} },
-		Check: checkString}, vfrun.N(60000, 4000000))
+		Check: checkString}, vfrun.N(60000, 16000000))
 }
 
 // ---------------------------------------------------------------------------------------------
@@ -748,7 +748,7 @@ func TestTree(t *testing.T) {
 			vfrun.SampleCat("any/map", map[string]any{"kind": "any/map", "json": string(b)})
 			return TreeCase{JSON: string(b)}
 		},
-		Check: checkTree}, vfrun.N(15000, 1000000))
+		Check: checkTree}, vfrun.N(15000, 4000000))
 }
 
 // ---------------------------------------------------------------------------------------------
@@ -999,7 +999,7 @@ func TestNested(t *testing.T) {
 			vfrun.SampleCat("nested", map[string]any{"kind": "nested", "root": c.Root})
 			return c
 		},
-		Check: checkNested}, vfrun.N(20000, 1500000))
+		Check: checkNested}, vfrun.N(20000, 6000000))
 }
 
 // ---------------------------------------------------------------------------------------------
